@@ -59,13 +59,19 @@ type OpCtx struct {
 	HookFailAt int // the HookFailAt-th hook call of this op fails (0: never)
 	HookCalls  int
 	HookFired  bool
-	Steps      int    // yield steps executed inside the op
-	Limit      int    // forced switch after this many steps (0: none)
-	RecStores  bool   // record offsets of store-flagged sites
-	StoreOffs  []int  // offsets (in steps) at which store-flagged sites ran
-	SyncOffs   []int  // offsets at which sync-flagged sites ran
-	ChildPanic string // a goroutine the library spawned during this op panicked (recovered by the simulator)
-	Sites      []int  // if RecSites: site sequence (bounded)
+	Steps      int         // yield steps executed inside the op
+	Limit      int         // forced switch after this many steps (0: none)
+	RecStores  bool        // record offsets of store-flagged sites
+	StoreOffs  []int       // offsets (in steps) at which store-flagged sites ran
+	SyncOffs   []int       // offsets at which sync-flagged sites ran
+	ChildPanic string      // a goroutine the library spawned during this op panicked (recovered by the simulator)
+	ClockJumps []ClockJump // simulated clock jumps (sorted by At)
+	clockIdx   int
+	ClockReads int    // how often the library read the clock during the op
+	RandSeed   uint64 // seed of the op's pseudo-random stream
+	randState  uint64
+	RandDraws  int   // how often the library drew a random number during the op
+	Sites      []int // if RecSites: site sequence (bounded)
 	RecSites   bool
 }
 
@@ -177,6 +183,7 @@ func Reset() {
 	capHit = false
 	liveKids = 0
 	planned = 0
+	clockReset()
 }
 
 //go:norace
@@ -414,6 +421,9 @@ func Yield(site int) {
 		return
 	}
 	op.Steps++
+	if op.clockIdx < len(op.ClockJumps) {
+		applyClockJumps(op)
+	}
 	if op.RecStores {
 		if sites[site].Store && len(op.StoreOffs) < 256 {
 			op.StoreOffs = append(op.StoreOffs, op.Steps)
